@@ -397,7 +397,9 @@ impl Module for M {
     fn rule(&self) -> &'static str {
         "tri.points / tri.outline: ALL ordered vertex triples (hence all 6 orders of every triple, colinear and coincident \
          vertices included) on a 5x5 grid with unit spacing around the origin (-2..=2) and on a stretched 5x5 grid \
-         (x = -5 + 3i, y = -3 + 2j; outline: every 4th triple), thorough: 7x7 unit grid and 6x6 stretched grid; then seeded \
+         (x = -5 + 3i, y = -3 + 2j), thorough: 7x7 unit grid and 6x6 stretched grid. tri.outline on the stretched grid takes \
+         only every 4th ORDERED triple of the enumeration (so there not all 6 orders of a given triple are run; on the unit grid \
+         they are); then seeded \
          random triangles with coordinates within +-60 at scales 4/8/16/30/60 with forced flat, vertical and colinear cases \
          (quick 2000 points / 600 outlines, thorough 50000 / 10000); every tri.points op also evaluates all 6 vertex orders. \
          tri.pair: all quadrilaterals a,b,c,d on a 4x4 grid with a < c (index order), split along a-c, plus random ones \
